@@ -164,11 +164,12 @@ def degreeAll (a : Arrays) : Nat :=
 def degreeAt (a : Arrays) (i : Nat) : Nat := a.ptr.getD (i + 1) 0 - a.ptr.getD i 0
 
 /-- `Graph::permute_indices(inv_perm)`: `idx = inv_perm.map(idx)` for every index. The two `XASSERT`s of the
-source are kept as they are written (non-empty index vector; `_image_idx.size() == inv_perm.size()`);
-`map` is `_perm_pos.at(idx)` (throws when out of range). `none` = abort/exception. -/
+source (non-empty index vector; `_num_nodes_image == inv_perm.size()`, as repaired by ffa23477d) are kept;
+`map` is `_perm_pos.at(idx)` (throws when out of range, impossible for a well-formed graph).
+`none` = abort/exception. -/
 def permuteIndices (a : Arrays) (p : List Nat) : Option Arrays :=
   if a.idx.isEmpty then none
-  else if a.idx.size != p.length then none
+  else if a.nImg != p.length then none
   else if a.idx.all (· < p.length) then some { a with idx := a.idx.map fun k => p.getD k 0 }
   else none
 
@@ -204,8 +205,9 @@ structure It where
   cur2 : List Nat
 deriving Repr, DecidableEq
 
-/-- `image_begin(i)`: `_cur1 = adj1.begin(i)`; if `_cur1 != _end1` load the adjactor-2 list of `*_cur1`
-(the constructor does **not** skip an empty adjactor-2 list — see `C19.compositeIterator_*`) -/
+/-- `image_begin(i)` as it was before 1c006df21: `_cur1 = adj1.begin(i)`; if `_cur1 != _end1` load the adjactor-2
+list of `*_cur1` without skipping an empty one (kept to document the defect: `C19.compositeIterator_empty_head`;
+the code and the driver now use `beginFixed`) -/
 def begin (a b : Graph) (i : Nat) : It :=
   match a.row i with
   | [] => ⟨[], []⟩
@@ -236,8 +238,8 @@ def collect (b : Graph) : Nat → It → List Nat → Option (List Nat)
 def imagesOf (a b : Graph) (i : Nat) : Option (List Nat) :=
   collect b (((a.row i).flatMap b.row).length + 1) (begin a b i) []
 
-/-- `image_begin(i)` with the proposed repair (skip leading empty adjactor-2 lists exactly as `operator++`
-does; see FINDINGS_C19.md F-C19-5) -/
+/-- `image_begin(i)` (since 1c006df21): skip leading empty adjactor-2 lists exactly as `operator++` does
+(FINDINGS_C19.md F-C19-5) -/
 def beginFixed (a b : Graph) (i : Nat) : It := skip b (a.row i)
 
 def imagesOfFixed (a b : Graph) (i : Nat) : Option (List Nat) :=
@@ -245,10 +247,11 @@ def imagesOfFixed (a b : Graph) (i : Nat) : Option (List Nat) :=
 
 end CompIt
 
-/-- `p.concat(p)` with the argument aliasing `*this`: `p1[i] = p2[p1[i]]` reads entries that the loop has
-already overwritten (kept for documentation; the result is in general not `p ∘ p`, not even a bijection) -/
+/-- `p.concat(p)` with the argument aliasing `*this` (3fe35ab5b): the argument array is copied first, then
+`p1[i] = p2_copy[p1[i]]` in place. (Before the repair the loop read entries it had already overwritten.) -/
 def Perm.concatAliased (p : List Nat) : List Nat :=
-  ((List.range p.length).foldl (fun (a : Array Nat) i => a.setIfInBounds i (a.getD (a.getD i 0) 0)) p.toArray).toList
+  let copy := p.toArray
+  ((List.range p.length).foldl (fun (a : Array Nat) i => a.setIfInBounds i (copy.getD (a.getD i 0) 0)) p.toArray).toList
 
 /-! ## `Coloring` array / vector constructors -/
 namespace Coloring
